@@ -1,6 +1,7 @@
 package imapserver
 
 import (
+	"bufio"
 	"fmt"
 	"io"
 	"runtime/debug"
@@ -8,6 +9,18 @@ import (
 	"github.com/emersion/go-imap/v2"
 	"github.com/emersion/go-imap/v2/internal/imapwire"
 )
+
+// discardLongLine reads the remainder of a line which didn't fit into the
+// bufio.Reader buffer (bufio.Reader.ReadLine returned isPrefix).
+func discardLongLine(br *bufio.Reader, isPrefix bool) {
+	for isPrefix {
+		var err error
+		_, isPrefix, err = br.ReadLine()
+		if err != nil {
+			return
+		}
+	}
+}
 
 func (c *Conn) handleIdle(dec *imapwire.Decoder) error {
 	if !dec.ExpectCRLF() {
@@ -43,6 +56,7 @@ func (c *Conn) handleIdle(dec *imapwire.Decoder) error {
 	} else if err != nil {
 		return err
 	} else if isPrefix || string(line) != "DONE" {
+		discardLongLine(c.br, isPrefix)
 		return newClientBugError("Syntax error: expected DONE to end IDLE command")
 	}
 
